@@ -28,6 +28,9 @@ type C19Decl struct {
 type C19Case struct {
 	WS    Workspace `json:"ws"`
 	Decls []C19Decl `json:"decls"`
+	// Protocol: when not empty the workspace holds a luahelper.json whose ProtocolVars lists these
+	// table names (documented: members written under such a prefix need no declaration of the table)
+	Protocol []string `json:"protocol,omitempty"`
 }
 
 func init() { register("C19", checkC19) }
@@ -64,7 +67,23 @@ func genC19(t *rapid.T) C19Case {
 		n := rapid.IntRange(1, 8).Draw(t, "nitems")
 		for i := 0; i < n; i++ {
 			noise()
-			switch rapid.IntRange(0, 8).Draw(t, "item") {
+			switch rapid.IntRange(0, 9).Draw(t, "item") {
+			case 9:
+				// members under a configured protocol prefix; the table itself is declared nowhere
+				tn := name("Proto")
+				c.Protocol = append(c.Protocol, tn)
+				nm := rapid.IntRange(1, 4).Draw(t, "nprotoMembers")
+				for j := 0; j < nm; j++ {
+					noise()
+					switch rapid.IntRange(0, 2).Draw(t, "protoMember") {
+					case 0:
+						add("member-func", tn, name("pf"), false, "function "+tn+".", "("+params()+")"+body()+"end\n")
+					case 1:
+						add("member-method", tn, name("pm"), false, "function "+tn+":", "("+params()+")"+body()+"end\n")
+					default:
+						add("member-assign-func", tn, name("pa"), false, tn+".", " = function("+params()+")"+body()+"end\n")
+					}
+				}
 			case 8:
 				// a local function declared below the main chunk's top level: in a do / if / for block, in
 				// the body of a top-level local function, in the body of a global function, in a method
@@ -95,6 +114,9 @@ func genC19(t *rapid.T) C19Case {
 				if global {
 					tn = name("Gtab")
 					add("global", "", tn, true, "", " = {}\n")
+					if rapid.IntRange(0, 3).Draw(t, "tableIsProtocol") == 0 {
+						c.Protocol = append(c.Protocol, tn)
+					}
 				} else {
 					tn = name("Ltab")
 					add("local", "", tn, false, "local ", " = {}\n")
@@ -165,6 +187,11 @@ func checkC19(c C19Case, env *Env) *Violation {
 		}
 	}
 	req := &proto.Request{Cmd: "session", Files: c.WS.protoFiles(), InitOptions: harness.J(harness.Flags(1))}
+	if len(c.Protocol) > 0 {
+		pv, _ := json.Marshal(c.Protocol)
+		req.Files = append(req.Files, proto.File{Path: "luahelper.json", Data: []byte(`{"BaseDir":"./","ShowWarnFlag":0,"ProtocolVars":` + string(pv) + `}`)})
+		env.Stats.Class("protocol-vars-configured")
+	}
 	req.Steps = c.WS.openAll()
 	symStep := map[int]int{}
 	for fi, f := range c.WS.Files {
